@@ -586,3 +586,119 @@ func paramIndex(f *FuncInfo, v *types.Var) int {
 	}
 	return -1
 }
+
+// roleString prints an expression with every local variable / parameter replaced by the role name the caller
+// inferred for it from how it is defined or used (never from its identifier), so that a consistent renaming of
+// locals leaves the string unchanged. Variables without role print as "?name" (so an unexpected variable changes
+// the string). Package-level identifiers print by name.
+func roleString(info *types.Info, e ast.Expr, roles map[types.Object]string) string {
+	switch x := ast.Unparen(e).(type) {
+	case *ast.Ident:
+		o := info.Uses[x]
+		if o == nil {
+			o = info.Defs[x]
+		}
+		if r, ok := roles[o]; ok {
+			return r
+		}
+		if v, ok := o.(*types.Var); ok && !v.IsField() && v.Pkg() != nil && v.Parent() != v.Pkg().Scope() {
+			return "?" + x.Name
+		}
+		return x.Name
+	case *ast.BinaryExpr:
+		return roleString(info, x.X, roles) + x.Op.String() + roleString(info, x.Y, roles)
+	case *ast.UnaryExpr:
+		return x.Op.String() + roleString(info, x.X, roles)
+	case *ast.CallExpr:
+		var args []string
+		for _, a := range x.Args {
+			args = append(args, roleString(info, a, roles))
+		}
+		return roleString(info, x.Fun, roles) + "(" + strings.Join(args, ",") + ")"
+	case *ast.SelectorExpr:
+		return roleString(info, x.X, roles) + "." + x.Sel.Name
+	case *ast.BasicLit:
+		return x.Value
+	case *ast.IndexExpr:
+		return roleString(info, x.X, roles) + "[" + roleString(info, x.Index, roles) + "]"
+	case *ast.StarExpr:
+		return "*" + roleString(info, x.X, roles)
+	case *ast.TypeAssertExpr:
+		return roleString(info, x.X, roles) + ".(T)"
+	}
+	return exprString(e)
+}
+
+// roleCmp normalises a comparison so that the variable with role `left` is on the left-hand side.
+func roleCmp(info *types.Info, e ast.Expr, roles map[types.Object]string, left string) string {
+	be, ok := ast.Unparen(e).(*ast.BinaryExpr)
+	if !ok {
+		return roleString(info, e, roles)
+	}
+	x, y := roleString(info, be.X, roles), roleString(info, be.Y, roles)
+	op := be.Op.String()
+	if y == left {
+		x, y = y, x
+		switch be.Op {
+		case token.LSS:
+			op = ">"
+		case token.LEQ:
+			op = ">="
+		case token.GTR:
+			op = "<"
+		case token.GEQ:
+			op = "<="
+		}
+	}
+	return x + op + y
+}
+
+// lhsVars returns the variables on the left of the first assignment / definition in n's subtree whose right-hand
+// side satisfies pred.
+func lhsVars(info *types.Info, n ast.Node, pred func(rhs ast.Expr) bool) []*types.Var {
+	var out []*types.Var
+	ast.Inspect(n, func(m ast.Node) bool {
+		if out != nil {
+			return false
+		}
+		var lhs []ast.Expr
+		var rhs []ast.Expr
+		switch s := m.(type) {
+		case *ast.AssignStmt:
+			lhs, rhs = s.Lhs, s.Rhs
+		case *ast.ValueSpec:
+			for _, id := range s.Names {
+				lhs = append(lhs, id)
+			}
+			rhs = s.Values
+		default:
+			return true
+		}
+		if len(rhs) == 0 {
+			return true
+		}
+		for i, r := range rhs {
+			if !pred(r) {
+				continue
+			}
+			ls := lhs
+			if len(lhs) == len(rhs) {
+				ls = lhs[i : i+1]
+			}
+			for _, l := range ls {
+				if id, ok := ast.Unparen(l).(*ast.Ident); ok {
+					v, _ := info.Defs[id].(*types.Var)
+					if v == nil {
+						v, _ = info.Uses[id].(*types.Var)
+					}
+					out = append(out, v)
+				} else {
+					out = append(out, nil)
+				}
+			}
+			return false
+		}
+		return true
+	})
+	return out
+}
